@@ -4,7 +4,9 @@ import (
 	"bytes"
 	"crypto/ecdsa"
 	"encoding/json"
+	"fmt"
 
+	"github.com/mosaicnetworks/babble/src/common"
 	"github.com/mosaicnetworks/babble/src/crypto"
 	"github.com/mosaicnetworks/babble/src/crypto/keys"
 	"github.com/mosaicnetworks/babble/src/peers"
@@ -137,6 +139,13 @@ func (t *InternalTransaction) Sign(privKey *ecdsa.PrivateKey) error {
 
 // Verify verifies the transaction's signature.
 func (t *InternalTransaction) Verify() (bool, error) {
+	// The Peer ends up in Frames (through the Event that carries the
+	// transaction, and through the peer-set if it is accepted)
+	p := t.Body.Peer
+	if !common.EncodableString(p.PubKeyHex) || !common.EncodableString(p.NetAddr) || !common.EncodableString(p.Moniker) {
+		return false, fmt.Errorf("internal transaction peer contains a string that is not valid text")
+	}
+
 	pubBytes := t.Body.Peer.PubKeyBytes()
 	pubKey := keys.ToPublicKey(pubBytes)
 
